@@ -345,6 +345,7 @@ class World:
         self.evals = 0
         self.nontrivial = set()
         self.op_steps = {}
+        self.soft_foreign = 0
         self.state_trace = {}
         self.faulted = False
         self.final_points = None
@@ -359,11 +360,19 @@ class World:
     def owns(self, owners):
         return self.prop in owners
 
-    def fail(self, owners, oracle, msg, i):
-        """An oracle failed: violation if ours, else foreign divergence."""
+    def fail(self, owners, oracle, msg, i, desync=False):
+        """An oracle failed: a violation if it is ours.  If it belongs to
+        another property the run goes on, unless the model is now out of
+        step with the implementation (`desync`): then the run ends."""
         if self.prop in owners:
             raise Violation(self.prop, oracle, msg, i)
-        raise Foreign(owners, oracle, msg, i)
+        if desync:
+            raise Foreign(owners, oracle, msg, i)
+        self.count("foreign-soft:" + oracle.split(":")[0])
+        self.soft_foreign += 1
+
+    def fail_hard(self, owners, oracle, msg, i):
+        self.fail(owners, oracle, msg, i, desync=True)
 
     # -- lifecycle ------------------------------------------------------------
     def install(self):
@@ -1134,7 +1143,7 @@ class World:
         if out.kind == "exc":
             self.fail(self.owners_exc(op), "unexpected-exception",
                       "%s raised %s: %s" % (k, type(out.exc).__name__,
-                                            out.exc), i)
+                                            out.exc), i, desync=True)
 
         # 2. return value
         if exp[0] == "ret":
@@ -1165,6 +1174,7 @@ class World:
             self.fail({"C15"}, "write-allowed-in-mode",
                       "%s returned normally in access mode %r"
                       % (k, ctx["pre_mode"]), i)
+            return
         if CollabError in exp[1] or CollabInterrupt in exp[1]:
             # C11 is conditional on the call raising: a swallowed failure is
             # only a violation if the contents changed (check_state).
@@ -1439,6 +1449,7 @@ class World:
             self.fail(owners, "scan-path-exception",
                       "%s %s on the scan path raised %r"
                       % (k, _brief(op), out.exc), i)
+            return
         want = ctx["exp"][1]
         msg = self.cmp_read(k, op, out.value, want) if k in QUERY_READS \
             else self.cmp_getter(k, op, out.value, want)
@@ -1539,7 +1550,7 @@ class World:
             if self.opts["twin_runner"](i):
                 self.probe("twin-says-logic-defect")
                 owners = owners - {"C04", "C05"}
-        self.fail(owners, oracle, msg, i)
+        self.fail(owners, oracle, msg, i, desync=True)
 
     # -- side effects: C15, C16 ---------------------------------------------------------
     def check_side_effects(self, ctx):
@@ -1823,7 +1834,7 @@ class World:
         if out.kind == "exc":
             self.fail({"C04", "C05"} | ({self.prop} if self.prop in (
                 "C11", "C12", "C13") else set()), "reopen-failed",
-                "close + reopen raised %r" % (out.exc,), n)
+                "close + reopen raised %r" % (out.exc,), n, desync=True)
         self.pending = 0
         self.check_state(ctx)
         if self.prop in ("C04", "C05") and self.can("read"):
